@@ -5,12 +5,14 @@ From AV Require Import Base.Util Model.Consumer.
 
 (* Kernel conversion hint: when Qed re-checks a [change]/[cbn] on a hypothesis  <program> s = (r, s', o)  the two
    sides may have different head constants (a boolean test on one side, [bind] on the other); unfolding the program
-   side first symbolically executes the whole method (seconds to minutes per step).  Program constants unfold LAST. *)
-Strategy 1000 [bind ret raise try swallow emit get upd startd_errback do_fetch retry_fetch handle_offset_response
+   side first symbolically executes the whole method (seconds to minutes per step).  Program constants unfold LAST,
+   callers before callees (the new type is always a reduct of the old one). *)
+Strategy 1000 [bind ret raise try swallow emit get upd].
+Strategy 900 [startd_errback do_fetch retry_fetch handle_offset_response
   handle_offset_error handle_fetch_error handle_auto_commit_error handle_processor_error send_commit_request commit
   auto_commit proc_chain pop_plan emit_shutd interrupted api_stop api_commit handle_commit_error fire_all finish_block
-  stop_req stop_mblock stop_proc stop_rcall stop_creq stop_ccall stop_looper stop_susp stop_startd body run flush_pend
-  handle step].
+  stop_req stop_mblock stop_proc stop_rcall stop_creq stop_ccall stop_looper stop_susp stop_startd flush_pend].
+Strategy 800 [body].  Strategy 700 [run].  Strategy 600 [handle].  Strategy 500 [step].
 
 (* ---------- inversion of executions ---------- *)
 Lemma bind_inv {A B} (m : M A) (f : A -> M B) s r s' o :
